@@ -187,7 +187,7 @@ Fixpoint render_t (isf : string -> bool) (m : option style) (c : ctx) (t : term)
   | TValRaw txt alias => val_leaf isf m c (LRaw txt) txt alias st
   | TParam txt => ret [KExp txt] st
   | TNeg t' =>
-      tbind (render_t isf m (opc SNeg t' c) t' st) (fun a0 s1 =>
+      tbind (render_t isf m (opc SNeg t' (set_wa c false)) t' st) (fun a0 s1 =>
       let a := opndl SNeg t' a0 in
       ret (KTxt "-" :: wrap2 (match t' with TArith _ _ _ _ => neg_parens_arith | TNeg _ => neg_parens_neg | _ => false end)
                              (neg_parens_minus && starts_minus (flatten a)) a) s1)
@@ -211,22 +211,24 @@ Fixpoint render_t (isf : string -> bool) (m : option style) (c : ctx) (t : term)
       let c' := set_wa c false in
       tbind (render_t isf m (opc SCmpL l c') l st) (fun a s1 =>
       tbind (render_t isf m (opc SCmpR r c') r s1) (fun b s2 =>
-      ret (aliased (wa c) c None (opndl SCmpL l a ++ KTxt (cmp_text cm) :: opndl SCmpR r b) alias) s2))
+      ret (aliased (wa c) c (q c) (opndl SCmpL l a ++ KTxt (cmp_text cm) :: opndl SCmpR r b) alias) s2))
   | TCplx bo l r alias =>
-      tbind (render_t isf m (set_subc c (needs_brackets_x bo (top_bop l))) l st) (fun a s1 =>
-      tbind (render_t isf m (set_subc c (needs_brackets_x bo (top_bop r))) r s1) (fun b s2 =>
-      ret (parl (subc c) (a ++ KTxt (" " ++ bop_text_x bo ++ " ") :: b)) s2))
+      let c' := set_wa c false in
+      tbind (render_t isf m (set_subc c' (needs_brackets_x bo (top_bop l))) l st) (fun a s1 =>
+      tbind (render_t isf m (set_subc c' (needs_brackets_x bo (top_bop r))) r s1) (fun b s2 =>
+      ret (aliased (wa c) c (q c) (parl (subc c) (a ++ KTxt (" " ++ bop_text_x bo ++ " ") :: b)) alias) s2))
   | TIn t' cont negated alias =>
-      tbind (render_t isf m (opc SInTerm t' (set_subq c false)) t' st) (fun a s1 =>
-      tbind (render_t isf m (set_subq c true) cont s1) (fun b s2 =>
+      tbind (render_t isf m (opc SInTerm t' (set_wa (set_subq c false) false)) t' st) (fun a s1 =>
+      tbind (render_t isf m (set_wa (set_subq c true) false) cont s1) (fun b s2 =>
       ret (aliased true c (q c) (opndl SInTerm t' a ++ KTxt (" " ++ (if negated then "NOT " else "") ++ "IN ") :: b) alias) s2))
   | TBetween t' lo hi alias =>
-      tbind (render_t isf m (opc SBetTerm t' c) t' st) (fun a s1 =>
-      tbind (render_t isf m (opc SBetLo lo c) lo s1) (fun b s2 =>
-      tbind (render_t isf m (opc SBetHi hi c) hi s2) (fun d s3 =>
+      let c' := set_wa c false in
+      tbind (render_t isf m (opc SBetTerm t' c') t' st) (fun a s1 =>
+      tbind (render_t isf m (opc SBetLo lo c') lo s1) (fun b s2 =>
+      tbind (render_t isf m (opc SBetHi hi c') hi s2) (fun d s3 =>
       ret (aliased true c (q c) (opndl SBetTerm t' a ++ KTxt " BETWEEN " :: opndl SBetLo lo b ++ KTxt " AND " :: opndl SBetHi hi d) alias) s3)))
   | TBitAnd t' v alias =>
-      tbind (render_t isf m c t' st) (fun a s1 =>
+      tbind (render_t isf m (set_wa c false) t' st) (fun a s1 =>
       ret (aliased true c (q c) (KTxt "(" :: a ++ [KTxt (" & " ++ v ++ ")")]) alias) s1)
   | TIsNull t' alias =>
       tbind (render_t isf m (opc SIsNull t' (set_wa c false)) t' st) (fun a s1 =>
@@ -235,10 +237,10 @@ Fixpoint render_t (isf : string -> bool) (m : option style) (c : ctx) (t : term)
       tbind (render_t isf m (opc SNotNull t' (set_wa c false)) t' st) (fun a s1 =>
       ret (aliased true c (q c) (opndl SNotNull t' a ++ [KTxt " IS NOT NULL"]) alias) s1)
   | TNot t' alias =>
-      tbind (render_t isf m (set_subc c true) t' st) (fun a s1 =>
+      tbind (render_t isf m (set_wa (set_subc c true) false) t' st) (fun a s1 =>
       ret (aliased true (set_subc c true) (q c) (KTxt "NOT " :: a) alias) s1)
   | TAll t' alias =>
-      tbind (render_t isf m c t' st) (fun a s1 => ret (aliased true c (q c) (a ++ [KTxt " ALL"]) alias) s1)
+      tbind (render_t isf m (set_wa c false) t' st) (fun a s1 => ret (aliased true c (q c) (a ++ [KTxt " ALL"]) alias) s1)
   | TCase ws els alias =>
       let c' := set_wa c false in
       match ws with
@@ -261,10 +263,10 @@ Fixpoint render_t (isf : string -> bool) (m : option style) (c : ctx) (t : term)
                   [KTxt ((match special with Some sp => " " ++ sp | None => "" end) ++ ")")]) alias) st
       end
   | TTuple vs alias =>
-      tbind (render_tl isf m c vs st) (fun tss s1 =>
+      tbind (render_tl isf m (set_wa c false) vs st) (fun tss s1 =>
       ret (aliased true c (q c) (KTxt "(" :: jointoks "," tss ++ [KTxt ")"]) alias) s1)
   | TArray vs alias =>
-      tbind (render_tl isf m c vs st) (fun tss s1 =>
+      tbind (render_tl isf m (set_wa c false) vs st) (fun tss s1 =>
       let body := jointoks "," tss in
       let ts := if is_pg (dia c)
                 then (match flatten body with EmptyString => [KTxt "'{}'"] | _ => KTxt "ARRAY[" :: body ++ [KTxt "]"] end)
@@ -526,7 +528,7 @@ Definition elab_owc (kw : string) (k : ctx) (w : owc) : list item :=
   match w with WNone => [] | WSome w' => IText kw :: elab_wc k w' end.
 
 Definition setop_ord_item (k : ctx) (cols : list term) (td : term * option bool) : list item :=
-  (if alias_hit cols (fst td) then [IText (fq (q k) (ostr (term_alias (fst td))))] else [ITerm k (fst td)]) ++ dir_text (snd td).
+  (if alias_hit cols (fst td) then [IText (fq (or_ostr (aq k) (q k)) (ostr (term_alias (fst td))))] else [ITerm k (fst td)]) ++ dir_text (snd td).
 
 Definition sel_cols (s : sel) : list term := match s with Sel _ cols _ _ _ _ _ _ _ _ => cols end.
 
@@ -540,7 +542,7 @@ Definition elab_stmt (sqlite : bool) (s : stmt) : list item :=
         | ClColumns => match cols with [] => [] | _ => [IText (" (" ++ join "," (map (fq (q k)) cols) ++ ")")] end
         | ClValues =>
             IText " VALUES (" ::
-            sep_items "),(" (map (fun row => sep_items "," (map (fun t => [ITerm (set_subq (set_wa k true) true) t]) row)) rows)
+            sep_items "),(" (map (fun row => sep_items "," (map (fun t => [ITerm (set_subq (set_wa k false) true) t]) row)) rows)
             ++ [IText ")"]
         | _ => [] end) insert_values_order
   | SInsertSel tbl cols s' =>
@@ -565,7 +567,8 @@ Definition elab_stmt (sqlite : bool) (s : stmt) : list item :=
         | ClWhere => elab_owc " WHERE " (set_subq k true) wh
         | _ => [] end) delete_order
   | SSetOp wrap base ops ord lim off =>
-      (* _SetOperation.get_sql: only dialect and quote_char are defaulted; the members fill in the rest *)
+      (* _SetOperation.get_sql: every default comes from base_query._set_kwargs_defaults; LIMIT/OFFSET through a builder
+         of the base class (_apply_pagination) *)
       flat_map (fun cl => match cl with
         | ScBase => elab_sel k false wrap base
         | ScOps => flat_map (fun os => IText (" " ++ fst os ++ " ") :: elab_sel k false wrap (snd os)) ops
